@@ -183,6 +183,9 @@ class XRunner(c07.Runner):
             raise box['exc']
         return box['r']
 
+    def new_reference(self, eng):
+        return fork_engine(eng, self.ctx.work)
+
     # hooks for the connection-level runner
     def wrap(self, ev_term, out_term, r, next_uid, uids, max_size):
         return ev_term, 'XB (Some %s) %s %s' % (out_term, c07.zt(next_uid), cp.lst(uids, c07.zt))
@@ -201,7 +204,7 @@ class XRunner(c07.Runner):
         # ---- fork: a fresh engine object on a copy of the database file, before the live engine sees the request
         other = None
         if self.fork:
-            other = fork_engine(eng, self.ctx.work)
+            other = self.new_reference(eng)
             self.forks += 1
         try:
             r = self.send(eng, conc, who, ver, cont, stamp, asynchronous, undo, ids, max_size, live=True)
@@ -393,7 +396,8 @@ class SessRunner(XRunner):
         settings = None
         if self.slugs:
             settings = self.auth_settings if live else new_auth_settings()
-        sess = session_mod.KmipSession(proxy, pipe, ('192.0.2.7', 5696), name='c11', enable_tls_client_auth=True, auth_settings=settings)
+        sess = session_mod.KmipSession(proxy, pipe, ('192.0.2.7', 5696 + (who % 100) % 2), name='c11', enable_tls_client_auth=True,
+                                        auth_settings=settings)     # alice/carol/mallory and bob/dave come from the same (ip, port)
         sess._logger.setLevel(logging.CRITICAL + 1)
         self.nconn += 1
         return (self.nconn, sess, pipe, proxy)
@@ -490,12 +494,23 @@ class SessRunner(XRunner):
         r['session'] = {'outcome': outcome, 'final': fin, 'final_len': len(data), 'conn': cid, 'engine_len': englen}
         return r
 
+    def new_reference(self, eng):
+        reference()                                    # make sure the zygote exists before this process serves anything
+        return RefHandle(copy_database(eng, self.ctx.work))
+
+    def reference_exchange(self, handle, who, frame, ver):
+        r, dump = reference().answer(handle.path, self.eng.clock.t, who, frame, ver, self.slugs)
+        handle._dump = dump
+        return r
+
     def encode(self, req, ver):
         """A client may put any version numbers into the header; the body is then encoded under the 1.2 rules."""
         return self.sd.encode_request(req, ver if tuple(ver) in kdrv.VERSIONS else (1, 2))
 
     def send(self, eng, conc, who, ver, cont, stamp, asynchronous, undo, ids, max_size=None, live=True):
-        req = self.build_request(eng, conc, ver, cont, stamp, asynchronous, undo, ids, max_size)
+        req = self.build_request(self.eng, conc, ver, cont, stamp, asynchronous, undo, ids, max_size)
+        if isinstance(eng, RefHandle):
+            return self.reference_exchange(eng, who, self.encode(req, ver), ver)
         return self.exchange(eng, who, self.encode(req, ver), ver, live)
 
     def error_out(self, r):
@@ -526,12 +541,12 @@ class SessRunner(XRunner):
         """An undecodable message on the connection of `who`; with `length`, one whose header announces that many body
         bytes (and carries them): around and above the 1 MiB the session calls its maximum request size."""
         BAD_FRAME = globals()['BAD_FRAME'] if length is None else (b'\x42\x00\x78\x01' + int(length).to_bytes(4, 'big') + b'\x00' * int(length))
-        other = fork_engine(self.eng, self.ctx.work) if self.fork else None
+        other = self.new_reference(self.eng) if self.fork else None
         r = self.exchange(self.eng, who, BAD_FRAME, (1, 2), True)
         if other is not None:
             try:
                 self.forks += 1
-                r2 = self.exchange(other, who, BAD_FRAME, (1, 2), False)
+                r2 = self.reference_exchange(other, who, BAD_FRAME, (1, 2))
                 d = diff_answers(r, r2)
                 if d:
                     self.events.append({'ev': 'bad_frame', 'who': who, 'length': length, 'final': r['session']['final'],
@@ -617,8 +632,7 @@ def xresp_term(cl):
     return '(XR %s)' % c07.resp_term(cl)
 
 
-def fork_engine(eng, work):
-    """A fresh KmipEngine object on a copy of the live engine's database file (and journal), same fake clock."""
+def copy_database(eng, work):
     d = os.path.join(str(work), 'forks')
     os.makedirs(d, exist_ok=True)
     dst = os.path.join(d, 'fork_%s' % os.path.basename(eng.path))
@@ -629,7 +643,130 @@ def fork_engine(eng, work):
             shutil.copy(eng.path + suffix, dst + suffix)
     if not os.path.exists(dst):
         open(dst, 'wb').close()
+    return dst
+
+
+def fork_engine(eng, work):
+    """A fresh KmipEngine object on a copy of the live engine's database file (and journal), same fake clock."""
+    dst = copy_database(eng, work)
     return kdrv.Engine(path=dst, policies=c07.build_policies(), clock=eng.clock)       # nothing mutable is shared with the live server
+
+
+# ------------------------------------------------------------------ reference answers from a pristine interpreter state
+class PristineReference:
+    """State that outlives engines and sessions (class attributes, module-level tables, caches keyed by peer address ...) is
+    shared by everything in one interpreter - also by a 'fresh' engine and session created later in it.  The connection-level
+    reference answers therefore come from a process that has never served a request: a zygote forked before this check sends
+    its first request forks one child per reference probe; the child opens a new engine on the copy of the database and a new
+    session, answers the one message and exits."""
+
+    def __init__(self):
+        import pickle, struct
+        self.pickle, self.struct = pickle, struct
+        a_r, a_w = os.pipe()
+        b_r, b_w = os.pipe()
+        pid = os.fork()
+        if pid == 0:
+            os.close(a_w)
+            os.close(b_r)
+            try:
+                self._zygote(a_r, b_w)
+            finally:
+                os._exit(0)
+        os.close(a_r)
+        os.close(b_w)
+        self.w, self.r, self.pid = a_w, b_r, pid
+
+    def _read(self, fd):
+        head = b''
+        while len(head) < 4:
+            c = os.read(fd, 4 - len(head))
+            if not c:
+                return None
+            head += c
+        n = self.struct.unpack('!I', head)[0]
+        buf = b''
+        while len(buf) < n:
+            c = os.read(fd, min(1 << 16, n - len(buf)))
+            if not c:
+                return None
+            buf += c
+        return self.pickle.loads(buf)
+
+    def _write(self, fd, obj):
+        data = self.pickle.dumps(obj)
+        data = self.struct.pack('!I', len(data)) + data
+        while data:
+            n = os.write(fd, data)
+            data = data[n:]
+
+    def _zygote(self, rd, wr):
+        while True:
+            job = self._read(rd)
+            if job is None:
+                return
+            pid = os.fork()
+            if pid == 0:
+                try:
+                    try:
+                        out = ('ok', self._serve(job))
+                    except BaseException:
+                        import traceback
+                        out = ('error', traceback.format_exc()[-1500:])
+                    self._write(wr, out)
+                finally:
+                    os._exit(0)
+            os.waitpid(pid, 0)
+
+    @staticmethod
+    def _serve(job):
+        eng = kdrv.Engine(path=job['db'], policies=c07.build_policies(), clock=kdrv.FakeClock(job['t']))
+        run = SessRunner(c07.NullCtx(os.path.dirname(job['db'])), eng, fork=False, slugs=job['slugs'])
+        r = run.exchange(eng, job['who'], job['frame'], tuple(job['ver']), False)
+        r = {k: v for k, v in r.items() if k != 'raw'}
+        r['items'] = [{k: v for k, v in it.items() if k != 'raw'} for it in r['items']]
+        return r, eng.dump()
+
+    def answer(self, db, t, who, frame, ver, slugs):
+        self._write(self.w, {'db': db, 't': t, 'who': who, 'frame': frame, 'ver': list(ver), 'slugs': slugs})
+        got = self._read(self.r)
+        if got is None or got[0] != 'ok':
+            raise RuntimeError('reference process failed: %r' % (got,))
+        return got[1]
+
+    def close(self):
+        try:
+            os.close(self.w)
+            os.waitpid(self.pid, 0)
+        except OSError:
+            pass
+
+
+REFERENCE = None
+
+
+def reference():
+    global REFERENCE
+    if REFERENCE is None:
+        REFERENCE = PristineReference()
+    return REFERENCE
+
+
+class RefHandle:
+    """Stands where the in-process fresh engine stands in XRunner.request: the copy of the database a reference child will open."""
+    def __init__(self, path):
+        self.path = path
+        self._dump = None
+
+    def dump(self):
+        return self._dump
+
+    def close(self):
+        for suffix in ('', '-journal', '-wal', '-shm'):
+            try:
+                os.unlink(self.path + suffix)
+            except OSError:
+                pass
 
 
 def proj(r, issued=()):
@@ -1104,6 +1241,7 @@ def shrink(ctx, events, runner=None):
 
 
 def run(ctx):
+    reference()                # the zygote of the reference processes: forked before this process has served a single request
     quick = ctx.tier == 'quick'
     ctx.cov['rule'] = (
         'every request of every generated history is a probe w.r.t. the history before it: it is sent to the live engine and to a '
@@ -1288,6 +1426,7 @@ def run(ctx):
 
 
 def replay(ctx, data):
+    reference()
     w = data.get('input') or {}
     events = w.get('history') or (data.get('first_disagreeing_cases') or [{}])[0].get('case', {}).get('events')
     if not events:
